@@ -129,6 +129,11 @@ def run(ctx):
                 rv = v.inline(val) if val is not None else None
                 undecided = rv is not None and (any(is_self_attr(x, p) for x in ast.walk(rv)) or (isinstance(val, ast.Name) and isinstance(v.resolve(val), ast.Name)))
                 res.add("E-FIXED", f, norm(s_), p + ":store", "ok" if ok or same else ("unknown" if undecided else "violation"), "" if ok or same else f"self.{p} is assigned on a path where it may have been supplied: a `{p}` given at construction is changed by fit()", loc(fi, s_))
+    with res.guard("F-SEL"):
+        from ..forward import check_same_named_forwarding
+
+        res.rules["F-SEL"] = "a HyMMSBM method that receives the size selection `d` hands it to every method of the class that takes `d` (sibling agreement: C, C', C'' and kappa are evaluated for the same sizes)"
+        check_same_named_forwarding(ctx, res, "HyMMSBM", ("d",))
     with res.guard("N-VECTYPE"):
         from ..lints import check_vectorize_otypes
 
